@@ -259,9 +259,19 @@ type contentAcc struct {
 	what  string
 }
 
-func contentAccesses(f *ssa.Function) []contentAcc {
+func contentAccesses(f *ssa.Function) []contentAcc { return contentAccessesD(f, 0) }
+
+func contentAccessesD(f *ssa.Function, depth int) []contentAcc {
 	var out []contentAcc
 	eachInstr(f, func(in ssa.Instruction) {
+		// accesses made by an unexported helper of the same package count at the call site
+		if c, ok := in.(*ssa.Call); ok && depth < 2 {
+			if sc := c.Call.StaticCallee(); sc != nil && sc.Pkg == f.Pkg && len(sc.Blocks) > 0 && !isEntryPoint(sc) && sc.Name() != "truncate" {
+				for _, sub := range contentAccessesD(sc, depth+1) {
+					out = append(out, contentAcc{c, sub.write, sub.what + " (in " + sc.Name() + ")"})
+				}
+			}
+		}
 		switch x := in.(type) {
 		case *ssa.FieldAddr:
 			if fieldName(x.X.Type(), x.Field) != "data" {
@@ -585,6 +595,9 @@ func leqLenProof(f *ssa.Function, at ssa.Instruction, expr ssa.Value, dataLen st
 
 func rc2pos(in ssa.Instruction) string { return in.String() }
 
+// nonNegCfg: the configuration whose functions nonNegative may consult for call sites (set by the rules that use it).
+var nonNegCfg *Config
+
 // nonNegative: v >= 0 at instruction `at`.
 func nonNegative(f *ssa.Function, v ssa.Value, at ssa.Instruction, depth int) (string, bool) {
 	if depth > 6 {
@@ -609,6 +622,19 @@ func nonNegative(f *ssa.Function, v ssa.Value, at ssa.Instruction, depth int) (s
 		}
 		if fn := calleeFunc(x); fn != nil && (fn.Name() == "size" || fn.Name() == "Size") {
 			return "size() is a length", true
+		}
+		// an unexported function of the same package all of whose returned values are non-negative
+		if sc := x.Call.StaticCallee(); sc != nil && sc.Pkg == f.Pkg && len(sc.Blocks) > 0 && sc.Signature.Results().Len() == 1 && depth < 4 {
+			all, n := true, 0
+			for _, r := range returnsOf(sc) {
+				n++
+				if _, ok := nonNegative(sc, r.Results[0], r, depth+2); !ok {
+					all = false
+				}
+			}
+			if all && n > 0 {
+				return "every value returned by " + sc.Name() + " is non-negative", true
+			}
 		}
 	case *ssa.UnOp:
 		if x.Op == token.MUL {
@@ -645,6 +671,25 @@ func nonNegative(f *ssa.Function, v ssa.Value, at ssa.Instruction, depth int) (s
 		if f.Name() == "truncate" {
 			return "precondition of truncate, established at every call site (see the `call truncate` obligations)", true
 		}
+		// a parameter of an unexported function: non-negative when every call site in the package passes such a value
+		if !isEntryPoint(f) && f.Parent() == nil && nonNegCfg != nil && depth < 4 {
+			idx := paramIdxRaw(f, x)
+			sites, all := 0, true
+			for _, g := range nonNegCfg.srcFuncs(pkgShort[f.Pkg.Pkg.Path()]) {
+				eachCall(g, func(ci ssa.CallInstruction) {
+					if ci.Common().StaticCallee() != f || idx >= len(ci.Common().Args) {
+						return
+					}
+					sites++
+					if _, ok := nonNegative(g, ci.Common().Args[idx], ci, depth+2); !ok {
+						all = false
+					}
+				})
+			}
+			if all && sites > 0 {
+				return fmt.Sprintf("every one of the %d call sites passes a non-negative value", sites), true
+			}
+		}
 	case *ssa.BinOp:
 		if x.Op == token.ADD {
 			_, a := nonNegative(f, x.X, at, depth+1)
@@ -672,6 +717,7 @@ facts:
 }
 
 func c02Bounds(rc *RuleCtx) {
+	nonNegCfg = rc.C
 	for _, pk := range []string{"memfs", "orefafs"} {
 		for _, f := range rc.C.srcFuncs(pk) {
 			nSl := 0
